@@ -13,6 +13,7 @@ from sim.state import reset_exo_globals
 from sim.kernel import derive_seed
 
 prop = sys.argv[1]
+OUT = os.environ.get("SAT_OUT", "/tmp/sat")
 vseeds = [int(x) for x in sys.argv[2].split(",")]
 n = int(sys.argv[3])
 known = common.load_known(prop)
@@ -24,7 +25,8 @@ def run(rs):
     cfg["known"] = known
     cfg["survey"] = True
     res = session.generate_and_run(rs, cfg)
-    res["data"] = None
+    if not any(v["prop"] == prop for v in res.get("all_violations", [])):
+        res["data"] = None
     return res
 
 
@@ -43,7 +45,14 @@ for r in recs:
             continue
         key = json.dumps(v["key"], sort_keys=True)
         c[key] += 1
-        ex.setdefault(key, (r["arg"], v["detail"]))
+        if key not in ex:
+            ex[key] = (r["arg"], v["detail"])
+            d = dict(r["result"]["data"])
+            d.update({"property": prop, "stop_at_first": False, "signature": v["sig"], "run_seed": r["arg"], "expect_key": v["key"]})
+            os.makedirs(OUT, exist_ok=True)
+            fn = os.path.join(OUT, f"{prop}-{r['arg']}-{v['sig']}-{v['key'].get('op')}.json")
+            json.dump(d, open(fn, "w"), indent=1, default=str)
+            ex[key] = (fn, v["detail"])
 print(prop, "vseeds", vseeds, "runs", len(seeds), dict(st), "wall", round(time.time() - t))
 for k, m in sorted(c.items()):
     print(m, k, "run_seed", ex[k][0], "::", ex[k][1][:300])
